@@ -55,6 +55,11 @@ def _leaf_boundary_points(a, theta, m=48):
         if leaf["k"] == "point":
             continue
         p = G.boundary_points(leaf, row, s)
+        if leaf["k"] in ("para", "tri"):
+            # points on the PROLONGATION of every edge beyond its end points (collinear, but not on the boundary)
+            V = G.prim_vertices(leaf, row, 1)[0]
+            ext = [V[i] + t * (V[(i + 1) % len(V)] - V[i]) for i in range(len(V)) for t in (-0.35, -0.12, 1.12, 1.35)]
+            p = np.concatenate([p, np.array(ext)])
         for mp in reversed(maps):
             p = G.pushforward(mp, p, {k: np.broadcast_to(v, (len(p), 1)) for k, v in row.items()})
         out.append(p)
